@@ -23,6 +23,7 @@ import (
 	"reflect"
 	"sort"
 	"strings"
+	"sync"
 	"unsafe"
 
 	"github.com/mfcochauxlaberge/jsonapi"
@@ -206,6 +207,13 @@ func sortedMapString(m any) string {
 	return strings.Join(parts, ",")
 }
 
+// commonSU: one SimpleURL that every request hands to NewURL (see ParseURL)
+var commonSU struct {
+	once    sync.Once
+	su      jsonapi.SimpleURL
+	include []string
+}
+
 // one operation with inputs owned by the caller (p distinguishes the inputs)
 func sharedOp(s *jsonapi.Schema, op string, p int) {
 	id := fmt.Sprintf("i%d", p)
@@ -230,6 +238,21 @@ func sharedOp(s *jsonapi.Schema, op string, p int) {
 		// (printing it puts its field lists in order, in place: a write to what must be the request's own)
 		if str := uc.String(); !strings.Contains(str, "a%2Cm%2Co") {
 			panic("the text of a URL parsed from a common text: " + str)
+		}
+		// a URL that was split into its parts once, for every request alike (a SimpleURL is handed over by
+		// value: what it lists stays the caller's, to read as often and from as many goroutines as it likes)
+		commonSU.once.Do(func() {
+			pu, err := neturl.Parse("/t1?include=o.p,m,o&fields[t1]=o,a")
+			must(err)
+			commonSU.su, err = jsonapi.NewSimpleURL(pu)
+			must(err)
+			commonSU.include = append([]string{}, commonSU.su.Include...)
+		})
+		if _, err := jsonapi.NewURL(s, commonSU.su); err != nil {
+			panic("a URL split beforehand is refused: " + err.Error())
+		}
+		if !reflect.DeepEqual(commonSU.su.Include, commonSU.include) {
+			panic(fmt.Sprintf("NewURL rewrote the inclusions of the SimpleURL it was given: %v", commonSU.su.Include))
 		}
 		// a filter that is a tree of conditions, three levels deep, with this request's own value in it
 		tree := `{"o":"and","v":[{"f":"a","o":"=","v":"` + id + `"},{"o":"or","v":[{"f":"a","o":"!=","v":"q"},{"o":"and","v":[{"o":"or","v":[]}]}]}]}`
